@@ -79,6 +79,38 @@ l = 70000.4
 other = 2.6
 PRINT n; nn; s; d; e; l; other
 ''', [], False),
+    'keyword-like-names': ('''DECLARE SUB fill (dst(), src%(), n%)
+DIM target(1 TO 3)
+DIM source%(1 TO 3)
+total = 10
+remaining = total - 3
+dataset = remaining * 2
+endval = dataset + 1
+ifx = endval - total
+nextval = ifx + 1
+printer$ = "p"
+tox = 5
+stepsize = 2
+elsewise = tox + stepsize
+casey = elsewise * 2
+loopct = casey - 1
+dimx = loopct + 1
+letter = dimx + 1
+callme = letter + 1
+gotoit = callme + 1
+onward = gotoit + 1
+source%(1) = 4
+source%(2) = 5
+source%(3) = 6
+fill target(), source%(), 3||CALL fill(target(), source%(), 3)
+PRINT remaining; dataset; endval; ifx; nextval; printer$; tox; stepsize; elsewise
+PRINT casey; loopct; dimx; letter; callme; gotoit; onward; target(1); target(3)
+SUB fill (dst(), src%(), n%)
+  FOR idx% = 1 TO n%
+    dst(idx%) = src%(idx%) * 2
+  NEXT idx%||NEXT
+END SUB
+''', [], False),
     'mixed': ('''TYPE pt
   x AS INTEGER
   tag AS STRING
